@@ -67,6 +67,12 @@ Theorem C07_one_receipt_per_tx : forall c e ts idx s s' rcs cn,
   apply_txs c e idx s ts = (s', rcs, cn) -> length rcs = length ts.
 Proof. exact apply_txs_length. Qed.
 
+(** the predicates the judge evaluates on implementation traces are these propositions *)
+Theorem C07_p_store_b_spec : forall k, p_store_b k = true <-> p_store k.
+Proof. exact p_store_b_spec. Qed.
+Theorem C07_p_counter_b_spec : forall k, p_counter_b k = true <-> p_counter k.
+Proof. exact p_counter_b_spec. Qed.
+
 (** site coverage: every non-journaled write call site of the source (regenerated inventory
     [BXGen.Gen_Sites.adds]) is classified in [Model/Sites.v], with its count per function and
     the "a failure return follows" bit; the promoted Stub surface is classified as well.
